@@ -1,15 +1,18 @@
 ----------------------------- MODULE TraceLangObj -----------------------------
 (***************************************************************************)
-(* Trace validation for X04.  One case = one program (prefix + statements, *)
-(* as indices into the batch's statement table) that was rendered to       *)
+(* Trace validation for X04.  One case = one program that was rendered to  *)
 (* meson.build text and run by the real interpreter, recorded as           *)
+(*   t    its top-level statements, as indices into the batch's statement  *)
+(*        roots; the syntax trees are shipped hash-consed: nodes[i] =      *)
+(*        <<k, s, n, cs, <<child indices>>>>                               *)
 (*   af   the -Dauto_features value of the project (0 disabled, 1 auto,    *)
 (*        2 enabled)                                                       *)
 (*   st   "ok" | "fail" (a MesonException)                                 *)
 (*   out  the texts printed by message(), in order, as code points         *)
 (*   em   which of the program's error_message literals occur in the text  *)
 (*        of the failure                                                   *)
-(*   fi   index of the top-level statement in which it failed (0: none)    *)
+(*   fi   index of the top-level statement in which it failed (0: unknown  *)
+(*        or none)                                                         *)
 (* The reference outcome is LangObj!Run of the same program.  After a      *)
 (* point the reference calls unspecified (documentation and pinned tests   *)
 (* silent) only the output printed before that point is compared.          *)
@@ -17,15 +20,19 @@
 EXTENDS LangObj, TLC, Json, IOUtils
 
 Batch == JsonDeserialize(IOEnv.TRACE_FILE)
-Table == Batch.table
+Nodes == Batch.nodes
+Roots == Batch.roots
 Cases == Batch.cases
 
 VARIABLES i, done
 vars == <<i, done>>
 
+RECURSIVE Build(_)
+Build(j) == LET t == Nodes[j + 1] IN N(t[1], t[2], t[3], t[4], [x \in 1..Len(t[5]) |-> Build(t[5][x])])
+Progr(c) == [j \in 1..Len(c.t) |-> Build(Roots[c.t[j] + 1])]
+
 \* a verdict names the clause and carries what a report needs: the reference's output, the statement at which the
 \* reference stopped, and what the variables held there / before the statement at which the implementation failed (c.fi)
-Progr(c) == [j \in 1..Len(c.t) |-> Table[c.t[j] + 1]]
 V(c, clause, r) == [id |-> c.id, clause |-> clause, sig |-> r.sig, code |-> r.code, expected |-> r.out, em |-> r.em,
                     at |-> r.at, rkinds |-> Kinds(r.vs),
                     ikinds |-> IF clause # "ok" /\ c.fi > 0 THEN Kinds(Run(SubSeq(Progr(c), 1, c.fi - 1), c.af).vs) ELSE <<>>]
@@ -33,11 +40,16 @@ IsPrefixOf(p, s) == Len(p) <= Len(s) /\ SubSeq(s, 1, Len(p)) = p
 InSeq(x, s) == \E j \in 1..Len(s) : s[j] = x
 
 Judge(c) ==
-    LET r == Run(Progr(c), c.af)
+    LET rr == RunTop(Progr(c), c.af)
+        r == rr.r
+        earlier == c.st = "fail" /\ c.fi > 0 /\ rr.stop > 0 /\ c.fi < rr.stop      \* failed in a statement the reference executes without failure
     IN IF r.sig = "err" /\ r.code = 3 THEN
-            (IF IsPrefixOf(r.out, c.out) THEN V(c, "ok", r) ELSE V(c, "OutputBeforeUnspecifiedPointDiffers", r))
+            (IF earlier THEN V(c, "FailsButReferenceSucceeds", r)
+             ELSE IF IsPrefixOf(r.out, c.out) THEN V(c, "ok", r)
+             ELSE V(c, "OutputBeforeUnspecifiedPointDiffers", r))
        ELSE IF r.sig = "err" THEN
-            (IF c.st # "fail" THEN V(c, "SucceedsButReferenceFails", r)
+            (IF c.st # "fail" \/ c.fi > rr.stop THEN V(c, "SucceedsButReferenceFails", r)    \* went past the statement at which failure is demanded
+             ELSE IF earlier THEN V(c, "FailsButReferenceSucceeds", r)
              ELSE IF c.out # r.out THEN V(c, "OutputBeforeFailureDiffers", r)
              ELSE IF r.em # <<>> /\ ~InSeq(r.em, c.em) THEN V(c, "ErrorMessageNotReported", r)
              ELSE V(c, "ok", r))
